@@ -202,7 +202,7 @@ func runC12(bg context.Context, cs c12case, n int64, vm *valueMemo) (cls, msg st
 func checkC12(c *harness.Check) {
 	mustAnchors(c)
 	c.Level = "fault_enumeration"
-	c.Rule = "(sequential half) fault = cancellation observed at the n-th poll of the context. For every case (root x depth x {alpha-beta+static leaf, alpha-beta+captures-only quiescence} x {empty table, table warmed by a depth-1 search}, plus Minimax and the SARGON nested search without table) the search is run once to count its N polls and then once for EVERY n in 1..N with the context cancelled from poll n on. Oracle: ErrHalted and no score; board snapshot unchanged; every ExactBound entry the halted search stored equals the reference value of its position at its depth; follow-up searches on the same table (same root same depth, depth+1, a child root) return the score they return on a table that never saw the halted search, with a principal variation. distinct_nontrivial = distinct (case, number of entries left behind) outcomes"
+	c.Rule = "(sequential half) fault = cancellation observed at the n-th poll of the context. For every case (root x depth x {alpha-beta+static leaf, alpha-beta+captures-only quiescence} x {empty table, table warmed by a depth-1 search}, plus Minimax and the SARGON nested search without table) the search is run once to count its N polls and then once for EVERY n in 1..N with the context cancelled from poll n on. Oracle: ErrHalted and no score; board snapshot unchanged; every ExactBound entry the halted search stored equals the reference value of its position at its depth; follow-up searches on the same table (same root same depth, depth+1, a child root) return the score they return on a table that never saw the halted search, with a principal variation. Engine level: on five roots (incl. checkmated, stalemated, claimable draw) a first analysis (depth 1, depth 2, practically unlimited) is ended by Halt / Move / TakeBack / Reset; the engine game is then the expected one and a second analysis starts and returns what a fresh engine with that game returns. distinct_nontrivial = distinct (case, number of entries left behind) outcomes"
 	var cases []c12case
 	roots := []searchRoot{ttRoots[0], ttRoots[2], ttRoots[3], ttRoots[4], ttRoots[7], ttRoots[8], ttRoots[11], {"R6k/8/6K1/8/8/8/8/8 b - - 0 1", nil, "net checkmated"}, {"7k/5Q2/6K1/8/8/8/8/8 b - - 0 1", nil, "net stalemate"}}
 	if c.Thorough() {
@@ -258,6 +258,8 @@ func checkC12(c *harness.Check) {
 	})
 	c.Sample(map[string]any{"case": cases[0].String(), "polls": counts[0], "halt_at": "every n in 1..polls"})
 	c.Sample(map[string]any{"case": cases[len(cases)-1].String(), "polls": counts[len(cases)-1]})
+	// halting through the engine (Halt / Move / TakeBack / Reset end an analysis; the next one must start clean)
+	engineHaltFamily(c)
 	// the same property on RUNNING searches: real goroutines halted at any instant (interleaving half)
 	embedInterleavings(c, "VERIF_MC", "mc", "C12")
 	c.Sample(map[string]any{"interleaving_scenario": "Iterative.Launch on K v K with a table and a time control; halter and hard-limit timer as lazy threads", "oracle": "board back and table untouched from the moment Halt returns"})
